@@ -23,15 +23,17 @@ pub fn digest(d: &[u8]) -> String {
 pub fn show_content(d: &[u8]) -> String {
     if d.len() <= 48 { format!("{}:{}", digest(d), hex(d)) } else { digest(d) }
 }
-pub fn gen_bytes(seed: usize, len: usize) -> Vec<u8> {
-    (0..len).map(|i| ((seed * 131 + i * 31 + (i / 251) * 17) & 255) as u8).collect()
+pub fn gen_bytes(seed: usize, len: usize) -> Vec<u8> { gen_bytes_off(seed, len, 0) }
+pub fn gen_bytes_off(seed: usize, len: usize, off: usize) -> Vec<u8> {
+    (off..off + len).map(|i| ((seed * 131 + i * 31 + (i / 251) * 17) & 255) as u8).collect()
 }
 pub fn parse_chunk(c: &str) -> Vec<u8> {
     if let Some(rest) = c.strip_prefix("G:") {
         let mut it = rest.split(':');
         let s: usize = it.next().unwrap().parse().unwrap();
         let l: usize = it.next().unwrap().parse().unwrap();
-        gen_bytes(s, l)
+        let o: usize = it.next().map_or(0, |x| x.parse().unwrap());
+        gen_bytes_off(s, l, o)
     } else { unhex(c) }
 }
 pub fn parse_chunks(s: &str) -> Vec<Vec<u8>> {
